@@ -499,18 +499,178 @@ class Program:
                 for stmt in cls.node.body:
                     if isinstance(stmt, ast.Assign) and len(stmt.targets) == 1 and isinstance(stmt.targets[0], ast.Name):
                         cls.enum_members[stmt.targets[0].id] = stmt.value
+        self._eliminate_memo_tables()
         self._inline_expression_helpers()
         self._expand_keyword_helpers()
         self._inline_void_procedures()
         self._unroll_literal_iterations()
         self._inline_expression_helpers(max_rounds=1)      # helpers that became single expressions by unrolling
         self._normalise_ctor_keywords()
+        self._mark_noreturn_calls()
         # the normal forms moved nodes around: recompute the parent links
         self._parents.clear()
         for mod in self.modules.values():
             for node in ast.walk(mod.tree):
                 for child in ast.iter_child_nodes(node):
                     self._parents[id(child)] = node
+
+    # -- N23 ---------------------------------------------------------------------------------------------------------
+    def _mark_noreturn_calls(self):
+        """N23  a call STATEMENT of a helper that never returns - every path through its body ends in `raise` (or in a call of
+        such a helper), no `return`, no `yield` - ends the path like the `raise` it stands for: the statement node is marked
+        `_noreturn`, which flow.always_exits / always_raises honour (`if bad: self._fail(msg)` guards what follows exactly like
+        `if bad: raise Error(msg)`).  Resolved callees only: a function of the module or an imported one by name, `self.m(...)`
+        / `cls.m(...)` through the class hierarchy; a method that a subclass overrides with one that returns does not count."""
+        def resolve(caller: FuncInfo, call: ast.Call) -> Optional[FuncInfo]:
+            f = call.func
+            if isinstance(f, ast.Name):
+                sym = self.resolve_name(caller.module, f.id)
+                return sym if isinstance(sym, FuncInfo) else None
+            if isinstance(f, ast.Attribute) and isinstance(f.value, ast.Name) and f.value.id in ('self', 'cls'):
+                owner = caller
+                while owner is not None and owner.cls is None:
+                    owner = owner.parent
+                if owner is None:
+                    return None
+                return self.lookup_method(owner.cls, f.attr)
+            if isinstance(f, ast.Attribute):
+                sym = self.resolve_expr_symbol(caller.module, f)
+                return sym if isinstance(sym, FuncInfo) else None
+            return None
+
+        noret: Set[str] = set()
+
+        def never_returns(stmts: List[ast.stmt], fn: FuncInfo) -> bool:
+            for st in stmts:
+                if isinstance(st, ast.Raise):
+                    return True
+                if isinstance(st, (ast.Return, ast.Continue, ast.Break)):
+                    return False
+                if isinstance(st, ast.Expr) and isinstance(st.value, ast.Call):
+                    c = resolve(fn, st.value)
+                    if c is not None and c.fq in noret:
+                        return True
+                if isinstance(st, ast.If) and st.orelse and never_returns(st.body, fn) and never_returns(st.orelse, fn):
+                    return True
+            return False
+        for _ in range(3):
+            grown = False
+            for fn in self.functions.values():
+                if fn.fq in noret or not isinstance(fn.node, (ast.FunctionDef, ast.AsyncFunctionDef)):
+                    continue
+                if fn.is_property or any(isinstance(x, (ast.Return, ast.Yield, ast.YieldFrom, ast.Try, ast.While)) for x in iter_own_nodes(fn.node)):
+                    continue
+                if never_returns(fn.node.body, fn):
+                    # overriding methods must not return either
+                    if fn.cls is not None and any(
+                            fn.name in c.methods and c.methods[fn.name] is not fn and c.methods[fn.name].fq not in noret
+                            for c in self.classes.values() if c is not fn.cls and any(
+                                isinstance(a_, ClassInfo) and a_ is fn.cls for a_ in self.ancestors(c))):
+                        continue
+                    noret.add(fn.fq)
+                    grown = True
+            if not grown:
+                break
+        self.noreturn_functions = noret
+        if not noret:
+            return
+        for fn in self.functions.values():
+            for x in iter_own_nodes(fn.node):
+                if isinstance(x, ast.Expr) and isinstance(x.value, ast.Call):
+                    c = resolve(fn, x.value)
+                    if c is not None and c.fq in noret:
+                        x._noreturn = True
+
+    # -- N22 ---------------------------------------------------------------------------------------------------------
+    def _eliminate_memo_tables(self):
+        """N22  a function that remembers what it computes in a table of its own object (or of its module):
+
+                   [k = K]                                   [k = K]
+                   if k not in self.T:                       [locals]
+                       [locals]; self.T[k] = V       ->      return V
+                   return self.T[k]
+
+           provided every parameter V depends on (through the locals) is also one K depends on: then a hit returns what
+           the miss would compute again.  (V is taken to be a function of its inputs - what the properties say about the
+           value does not depend on how often it is computed.)  A table whose key leaves a parameter out is NOT rewritten;
+           the rules report it (C07.memo / C05.memo).  The eliminated tables are listed in `memo_eliminated`."""
+        self.memo_eliminated: List[Tuple[str, int, str]] = []
+        for fn in list(self.functions.values()):
+            node = fn.node
+            if not isinstance(node, (ast.FunctionDef, ast.AsyncFunctionDef)):
+                continue
+            body = list(node.body)
+            k0 = 1 if body and isinstance(body[0], ast.Expr) and isinstance(body[0].value, ast.Constant) else 0
+            if len(body) - k0 < 2 or not isinstance(body[-1], ast.Return) or not isinstance(body[-2], ast.If):
+                continue
+            ret, guard, pre = body[-1], body[-2], body[k0:-2]
+            if guard.orelse or not all(isinstance(x, (ast.Assign, ast.AnnAssign)) for x in pre + guard.body):
+                continue
+            t = guard.test
+            if not (isinstance(t, ast.Compare) and len(t.ops) == 1 and isinstance(t.ops[0], ast.NotIn)):
+                continue
+            K, D = t.left, t.comparators[0]
+            store = guard.body[-1]
+            if not (isinstance(store, ast.Assign) and len(store.targets) == 1 and isinstance(store.targets[0], ast.Subscript)
+                    and ast.dump(store.targets[0].value) == ast.dump(D) and ast.dump(store.targets[0].slice) == ast.dump(K)):
+                continue
+            if not (isinstance(ret.value, ast.Subscript) and ast.dump(ret.value.value) == ast.dump(D)
+                    and ast.dump(ret.value.slice) == ast.dump(K)):
+                continue
+            root = D
+            while isinstance(root, ast.Attribute):
+                root = root.value
+            a = node.args
+            params = [x.arg for x in a.posonlyargs + a.args + a.kwonlyargs]
+            if not isinstance(root, ast.Name) or not isinstance(D, ast.Attribute) or root.id != (params[0] if params else None) \
+                    or fn.cls is None or root.id not in ('self', 'cls'):
+                continue            # only tables of the object itself (handed-in tables live as long as the caller says)
+            local_defs: Dict[str, List[ast.expr]] = {}
+            ok = True
+            for st in pre + guard.body[:-1]:
+                tg = st.targets[0] if isinstance(st, ast.Assign) and len(st.targets) == 1 else getattr(st, 'target', None)
+                if not isinstance(tg, ast.Name) or getattr(st, 'value', None) is None:
+                    ok = False
+                    break
+                local_defs.setdefault(tg.id, []).append(st.value)
+            if not ok:
+                continue
+
+            def deps(e, seen=None) -> set:
+                seen = set() if seen is None else seen
+                res = set()
+                for x in ast.walk(e):
+                    if isinstance(x, ast.Name) and isinstance(x.ctx, ast.Load):
+                        if x.id in local_defs and x.id not in seen:
+                            seen.add(x.id)
+                            for d in local_defs[x.id]:
+                                res |= deps(d, seen)
+                        if x.id in params[1:]:
+                            res.add(x.id)
+                return res
+            if not deps(store.value) <= deps(K):
+                continue
+            # the table is touched nowhere else in the function (and the function touches no other state)
+            if any(isinstance(x, (ast.Attribute, ast.Subscript)) and isinstance(x.ctx, (ast.Store, ast.Del))
+                   for st in pre + guard.body[:-1] for x in ast.walk(st)):
+                continue
+            new_ret = ast.Return(value=store.value)
+            ast.copy_location(new_ret, store)
+            rest = pre + guard.body[:-1] + [new_ret]
+            # what only served as the key is not needed any more
+            changed = True
+            while changed:
+                changed = False
+                for st in list(rest[:-1]):
+                    tg = st.targets[0] if isinstance(st, ast.Assign) else st.target
+                    used = any(isinstance(x, ast.Name) and x.id == tg.id and isinstance(x.ctx, ast.Load) for o in rest if o is not st for x in ast.walk(o))
+                    simple = all(isinstance(c.func, ast.Name) and c.func.id in ('str', 'repr', 'tuple', 'hash', 'id', 'frozenset')
+                                 for c in ast.walk(st.value) if isinstance(c, ast.Call))
+                    if not used and simple:
+                        rest.remove(st)
+                        changed = True
+            node.body = body[:k0] + rest
+            self.memo_eliminated.append((fn.fq, store.lineno, ast.unparse(D)))
 
     # -- N7 ----------------------------------------------------------------------------------------------------------
     def _inline_expression_helpers(self, max_rounds: int = 3):
@@ -2414,6 +2574,8 @@ class TypeEnv:
 
     def _attr_type(self, bt: tuple, attr: str) -> tuple:
         prog = self.prog
+        if attr in ('__name__', '__qualname__', '__module__') and bt[0] in ('any', 'type', 'func'):
+            return STR          # of a class / function object (what such an attribute is read from)
         if bt[0] == 'union':
             return union(self._attr_type(strip_opt(t), attr) for t in bt[1])
         if bt[0] == 'cls':
